@@ -410,4 +410,164 @@ theorem expiry_iff_silence {cfg : Cfg} (hv : cfgValid cfg = true) {s : TState} {
     · obtain ⟨t1, t2⟩ := hold_fire_time k1 xup xcf hne hf' hr' hh'
       exact ⟨t1, t2, hidle⟩
 
+/-- "Hold timer expired" is never reported by an ordinary event (of any role, for any role):
+    only a `wait` — the clock — can produce it. -/
+theorem no_expiry_without_timer (s : TState) (r : Role) (e : Ev) (he : e ≠ .input .holdTimer)
+    (r'' : Role) (n : Option Notif) : POut.conn r'' (.down .holdExpired n) ∉ outsOf s r e :=
+  ev_no_holdExpired s r e he r'' n
+
+/-! ## 6. Negotiated hold time zero: no timer runs, the session never dies of timer expiry -/
+
+/-- In every reachable state, a confirmed connection whose negotiated hold time is zero
+    (a) has neither timer armed;
+    (b) gets no timer firing in a `wait` of any length, no output of such a `wait` is a
+        hold-expiry SessionDown for it, and after the `wait` it is still confirmed with hold
+        time zero (so (a)–(c) apply again, for ever);
+    (c) no ordinary event produces a hold-expiry SessionDown for it either. -/
+theorem zero_disables {cfg : Cfg} (hv : cfgValid cfg = true) {s : TState} {cs : S} (h : Reach cfg s cs)
+    (r : Role) {c : Conn} (hc : Confirmed s r c) (hz : c.negotiatedHold = 0) :
+    ((s.slots r).hold = none ∧ (s.slots r).ka = none) ∧
+    (∀ d, (∀ f ∈ firedOf s d, f.role ≠ r) ∧
+          (∀ f ∈ firedOf s d, ∀ n, POut.conn r (.down .holdExpired n) ∉ f.outs) ∧
+          ∃ c', Confirmed (tstep s (.wait d)).1 r c' ∧ c'.negotiatedHold = 0) ∧
+    (∀ r' e, e ≠ .input .holdTimer → ∀ n, POut.conn r (.down .holdExpired n) ∉ outsOf s r' e) := by
+  obtain ⟨xup, xcf, a3, -, a6, -⟩ := confirmed_rel hv h hc
+  have hz' : (cs.get r).neg = 0 := by rw [← a3]; exact hz
+  refine ⟨a6 hz', fun d => ?_, fun r' e he n => ev_no_holdExpired s r' e he r n⟩
+  obtain ⟨cs', h1, h2⟩ := h.step hv (.wait d) rfl
+  obtain ⟨z, -⟩ := record_wait hv h d h1 r hc
+  obtain ⟨z1, z2⟩ := z hz'
+  refine ⟨z1, ?_, ?_⟩
+  · intro f hf n hmem
+    obtain ⟨x, hx⟩ := fired_outs_role cfg s cs (h.rel hv) d f hf _ hmem
+    injection hx with hr _
+    exact z1 f hf hr.symm
+  · obtain ⟨c', hc'⟩ := confirmed_of_obs hv h2 (by rw [z2]; exact xup) (by rw [z2]; exact xcf)
+    refine ⟨c', hc', ?_⟩
+    rw [(confirmed_rel hv h2 hc').2.2.1, z2]; exact hz'
+
+/-! ## 7. Link to C07: at most one confirmed connection also in timed runs -/
+
+theorem timed_at_most_one_confirmed (cfg : Cfg) (h : List TEv) :
+    let p := (reach (init cfg) h).peer
+    ¬ ((p.state .active = .openConfirm ∨ p.state .active = .established) ∧
+       (p.state .passive = .openConfirm ∨ p.state .passive = .established)) :=
+  inv_at_most_one cfg _ (reach_inv cfg h (init cfg) (inv_init cfg))
+
+/-! ## 7b. The driver's reading of `Set*Timer(n)` (timer probe)
+
+  `Timed.probe outs` is what the model says a fresh session task's slots look like after one
+  `apply_outputs` call; `TimedSpec.probeCheck` is the behavioural oracle run on what the real
+  `PeerSession::apply_outputs` does (harness/daemon/c08.rs). -/
+
+theorem probe_ok (outs : List POut) (hp : ∀ o ∈ outs, probeOut o = true) :
+    probeCheck outs (probe outs) = none :=
+  TimedProofs.probe_ok outs hp
+
+/-- `set-hold 0` leaves the hold slot disabled and quiet; `set-hold 90` arms it for 90 s. -/
+example : probe [.conn .passive (.setHold 90), .conn .passive (.setKa 30), .conn .passive (.setHold 0)] =
+    { hold := { fires := false, armed := .far }, ka := { fires := false, armed := .secs 30 } } := by decide
+/-- The oracle does reject the "empty collection" reading of `set-hold 0` (ready at once). -/
+example : probeCheck [.conn .passive (.setHold 0)]
+    { hold := { fires := true, armed := .empty }, ka := { fires := false, armed := .far } }
+    = some "disabled-hold-timer-fires" := by decide
+
+/-! ## 8. Non-vacuity: concrete reachable states satisfying the hypotheses above -/
+
+section Witnesses
+
+def cfg90 : Cfg := { localRid := 10, localAsn := 65001, localHold := 90, expectedAsn := 65002 }
+def openEv (hold : Nat) : Ev := .rawOpen { asn := 65002, hold := hold, rid := 5 }
+
+/-- connected, OPEN(hold 30) accepted at t=0, KEEPALIVE at t=0 ⇒ Established, negotiated 30. -/
+def histEst : List TEv :=
+  [.ev .active (.input (.connected false)), .ev .active (openEv 30), .ev .active (.input (.msg .keepalive))]
+/-- the same with the remote advertising hold time 0. -/
+def histZero : List TEv :=
+  [.ev .active (.input (.connected false)), .ev .active (openEv 0), .ev .active (.input (.msg .keepalive))]
+/-- only `connected`: the state in which an OPEN is accepted. -/
+def histSent : List TEv := [.ev .active (.input (.connected false))]
+
+example : cfgValid cfg90 = true := by decide
+example : wfHist histEst = true ∧ wfHist histZero = true ∧ wfHist histSent = true := by decide
+
+/-- `open_accept`/`negotiated_min`/`keepalive_third` hypotheses: OpenSent before, OpenConfirm after. -/
+example : (reach (init cfg90) histSent).peer.state .active = .openSent ∧
+    (tstep (reach (init cfg90) histSent) (.ev .active (openEv 30))).1.peer.state .active = .openConfirm ∧
+    openHold? (openEv 30) = some 30 ∧ wfEv (openEv 30) = true := by decide
+
+/-- ... and what they then say, computed: min(90,30) = 30, keepalive 10, both armed from t = 0. -/
+example : ((tstep (reach (init cfg90) histSent) (.ev .active (openEv 30))).1.slots .active) =
+    { hold := some 30, ka := some 10 } := by decide
+
+/-- `hold_deadline_invariant`/`expiry_iff_silence`/`only_ka_update_rearm` hypotheses: a confirmed
+    connection with non-zero negotiated hold time in a reachable state. -/
+example : ((reach (init cfg90) histEst).peer.connection .active).map
+    (fun c => (c.state, c.negotiatedHold, c.kaInterval)) = some (.established, 30, 10) := by decide
+
+/-- silence for 29 s: no expiry; for 30 s: expiry at exactly t = 30 (three keepalives sent before). -/
+example : ((firedOf (reach (init cfg90) histEst) 29).filter (·.isHold)).length = 0 := by decide
+example : ((firedOf (reach (init cfg90) histEst) 30).filter (·.isHold)).map (fun f => (f.time, f.role)) =
+    [(30, .active)] := by decide
+example : ((firedOf (reach (init cfg90) histEst) 30).filter (! ·.isHold)).map (·.time) = [10, 20] := by
+  decide
+
+/-- `zero_disables` hypotheses: confirmed with negotiated hold time 0 — and a long `wait` fires
+    nothing. -/
+example : ((reach (init cfg90) histZero).peer.connection .active).map
+    (fun c => (c.state, c.negotiatedHold)) = some (.established, 0) := by decide
+example : firedOf (reach (init cfg90) histZero) 100000 = [] := by decide
+
+/-- `ka_update_rearm`: the connection survives a KEEPALIVE. -/
+example : (tstep (reach (init cfg90) histEst) (.ev .active (.input (.msg .keepalive)))).1.peer.state .active
+    = .established := by decide
+
+end Witnesses
+
+/-! ## 9. The well-formedness hypothesis is needed (runs the observer rejects) -/
+
+section WfNeeded
+
+/-- An already-parsed OPEN with hold time 1 injected directly (the real parser rejects it):
+    negotiated 1, keepalive interval 0, the keepalive timer re-fires without the clock moving. -/
+theorem wf_needed_hold1 :
+    TimedSpec.check cfg90 (Timed.run cfg90
+      [.ev .active (.input (.connected false)),
+       .ev .active (.input (.msg (.open { asn := 65002, hold := 1, rid := 5 }))), .wait 0])
+      = .fail 2 "keepalive-overdue" := by decide
+
+/-- The hold-timer input injected as an event instead of produced by the clock. -/
+theorem wf_needed_holdTimer :
+    TimedSpec.check cfg90 (Timed.run cfg90
+      [.ev .active (.input (.connected false)), .ev .active (.input .holdTimer)])
+      = .fail 1 "hold-expiry-without-timer" := by decide
+
+/-- The keepalive-timer input injected as an event with negotiated hold time 0: `onKaTimer`
+    re-arms with interval 0. -/
+theorem wf_needed_kaTimer :
+    TimedSpec.check cfg90 (Timed.run cfg90
+      [.ev .active (.input (.connected false)), .ev .active (openEv 0),
+       .ev .active (.input .kaTimer), .wait 0])
+      = .fail 3 "zero-hold-time-but-keepalive-timer-fired" := by decide
+
+end WfNeeded
+
 end Rbgp.Fsm.TimedProps
+
+#print axioms Rbgp.Fsm.TimedProps.check_run_ok
+#print axioms Rbgp.Fsm.TimedProps.Reach.step
+#print axioms Rbgp.Fsm.TimedProps.open_accept
+#print axioms Rbgp.Fsm.TimedProps.negotiated_min
+#print axioms Rbgp.Fsm.TimedProps.keepalive_third
+#print axioms Rbgp.Fsm.TimedProps.keepalive_third_invariant
+#print axioms Rbgp.Fsm.TimedProps.hold_deadline_invariant
+#print axioms Rbgp.Fsm.TimedProps.lastRx_on_open
+#print axioms Rbgp.Fsm.TimedProps.record_ev
+#print axioms Rbgp.Fsm.TimedProps.record_wait
+#print axioms Rbgp.Fsm.TimedProps.ka_update_rearm
+#print axioms Rbgp.Fsm.TimedProps.only_ka_update_rearm
+#print axioms Rbgp.Fsm.TimedProps.expiry_iff_silence
+#print axioms Rbgp.Fsm.TimedProps.no_expiry_without_timer
+#print axioms Rbgp.Fsm.TimedProps.zero_disables
+#print axioms Rbgp.Fsm.TimedProps.timed_at_most_one_confirmed
+#print axioms Rbgp.Fsm.TimedProps.probe_ok
